@@ -143,7 +143,9 @@ pub fn check_sender(tr: &Trace) -> (Vec<MViol>, Summary) {
                     if !reported_after_end {
                         reported_after_end = true;
                         let clause = if why == "error" { "T3-send-after-error" } else { "T1-send-after-final-ack" };
-                        push(&mut out, mv(clause, &["C07"], format!("datagram {} emitted after the transfer had ended ({why})", crate::refcodec::describe(bytes)), &[("handshake", json!(!any_data))]));
+                        // a sender that goes on after the final ACK has not "completed successfully" either (C04)
+                        let props: &[&'static str] = if why == "error" { &["C07"] } else { &["C07", "C04"] };
+                        push(&mut out, mv(clause, props, format!("datagram {} emitted after the transfer had ended ({why})", crate::refcodec::describe(bytes)), &[("handshake", json!(!any_data))]));
                     }
                 }
                 match decode(bytes) {
@@ -183,7 +185,8 @@ pub fn check_sender(tr: &Trace) -> (Vec<MViol>, Summary) {
                     if !reported_after_end {
                         reported_after_end = true;
                         let clause = if why == "error" { "T3-recv-after-error" } else { "T1-recv-after-final-ack" };
-                        push(&mut out, mv(clause, &["C07"], format!("worker receives again after the transfer had ended ({why})"), &[("handshake", json!(!any_data))]));
+                        let props: &[&'static str] = if why == "error" { &["C07"] } else { &["C07", "C04"] };
+                        push(&mut out, mv(clause, props, format!("worker receives again after the transfer had ended ({why})"), &[("handshake", json!(!any_data))]));
                     }
                 }
                 prev_raised_to = None;
